@@ -11,6 +11,7 @@ import sys
 import time
 
 VERIF = os.path.dirname(os.path.dirname(os.path.abspath(__file__)))
+TOOLS = os.path.join(VERIF, "tools")
 REPO = os.environ.get("FSEL_REPO", "/repo")
 CACHE = os.path.join(VERIF, ".cache")
 LEAN = os.path.join(VERIF, "lean")
